@@ -173,6 +173,10 @@ def run(ctx):
                 st = rng.choice([None, 1, -1, 2, -2, 3])
                 sel = "[%s:%s%s]" % ("" if a is None else a, "" if b is None else b, "" if st is None else ":%d" % st)
                 want = arr[slice(a, b, st)]
+            if rng.random() < 0.3:
+                # zero-padded spellings of non-negative numbers (`[007]`, `[00000000003:]`) are the same numbers
+                import re as _re
+                sel = _re.sub(r"(?<![-0-9])(\d+)", lambda mm: "0" * rng.choice([1, 2, 9, 10, 11, 15, 30]) + mm.group(1), sel)
             base = tmpl % _json.dumps(arr) if src is None else tmpl
             doc = "n" if src is None else G.json_to_enc(arr if src == "@" else {"a": arr})
             ix.append((base + sel, doc, G.json_to_enc(want)))
